@@ -88,6 +88,8 @@ impl<T: Socket + ?Sized> Worker<T> {
 
             match handle_send() {
                 Ok(_) => {
+                    #[cfg(rs_tftpd_verif)]
+                    crate::verif::outcome(true);
                     println!(
                         "Sent {} to {}",
                         &file_path.file_name().unwrap().to_string_lossy(),
@@ -95,6 +97,8 @@ impl<T: Socket + ?Sized> Worker<T> {
                     );
                 }
                 Err(err) => {
+                    #[cfg(rs_tftpd_verif)]
+                    crate::verif::outcome(false);
                     eprintln!(
                         "Error {err}, while sending {} to {}",
                         &file_path.file_name().unwrap().to_string_lossy(),
@@ -123,6 +127,8 @@ impl<T: Socket + ?Sized> Worker<T> {
 
             match handle_receive() {
                 Ok(_) => {
+                    #[cfg(rs_tftpd_verif)]
+                    crate::verif::outcome(true);
                     println!(
                         "Received {} from {}",
                         &file_path.file_name().unwrap().to_string_lossy(),
@@ -130,6 +136,8 @@ impl<T: Socket + ?Sized> Worker<T> {
                     );
                 }
                 Err(err) => {
+                    #[cfg(rs_tftpd_verif)]
+                    crate::verif::outcome(false);
                     eprintln!(
                         "Error {err}, while receiving {} from {}",
                         &file_path.file_name().unwrap().to_string_lossy(),
@@ -165,6 +173,8 @@ impl<T: Socket + ?Sized> Worker<T> {
                     time = Instant::now();
                 }
 
+                #[cfg(rs_tftpd_verif)]
+                crate::verif::snap(true, block_number, window.len(), retry_cnt, filled);
                 match self.socket.recv() {
                     Ok(Packet::Ack(received_block_number)) => {
                         let diff = received_block_number.wrapping_sub(block_number);
@@ -205,6 +215,8 @@ impl<T: Socket + ?Sized> Worker<T> {
             let mut retry_cnt = 0;
 
             loop {
+                #[cfg(rs_tftpd_verif)]
+                crate::verif::snap(false, block_number, window.len(), retry_cnt, true);
                 match self.socket.recv_with_size(self.blk_size) {
                     Ok(Packet::Data {
                         block_num: received_block_number,
